@@ -46,6 +46,7 @@ def run(prog, chk):
     from props import C16, C10
     C16.extent_accumulation(prog, chk)  # a group's box (what `#g|h` / `#g~x2` refer to) includes every pass of a loop inside it
     C10.retry_progress(prog, chk)  # a forward reference (also to a <point>) is placed on the retry
+    C10.registration_keys_agree(prog, chk)  # ... against the resolved target: a deferred target's provisional registration is withdrawn under the key it was made under
     C11.extraction_algebra(prog, chk)
     from props import C17
     C17.depth_pairing(prog, chk)  # forward references are placed by retrying: a depth count leaked by a deferred attempt turns a valid chain into a limit error
